@@ -26,16 +26,15 @@ func H_C04_many() {
 			miss = append(miss, req[i])
 		}
 	}
+	if len(miss) == 0 {
+		return // fully resolvable requests are C02's subject
+	}
 	shape := vDrawOCI("oci.", 1, 0, 0)
 	o := vMkOCI(shape)
 	tok := vfreeze(o)
 	want := append([]string(nil), req...)
 	unresolved, err := c.InjectDevices(o, req...)
 	vassert("request-slice-not-modified", vEqStrs(req, want))
-	if len(miss) == 0 {
-		vreach("many-all-resolved")
-		return
-	}
 	vreach("many-misses")
 	vassert("many-miss-error", err != nil)
 	vassert("many-miss-names-exact", vEqStrs(unresolved, miss))
